@@ -78,6 +78,16 @@ class P(Prop):
         for v in self.args(rng, tier):
             form = self.forms(rng)
             out.append(K.kernel_case(NAME, form + [v], cls="evaluate", libm=True))
+            if rng.random() < 0.25:
+                # a different form at the bit-identical argument right afterwards: the value may depend on (form, v) only
+                out.append(K.kernel_case(NAME, self.forms(rng) + [v], cls="evaluate/same_v", libm=True))
+        # very small arguments with small coefficients: the terms are of ordinary size (u*v*e^x ~ u) but products such as u*v
+        # are far below the normal range
+        for _ in range(40 if tier == "quick" else 500):
+            v = rng.uniform(1, 9.9) * 10.0 ** -rng.randint(290, 307)
+            sc = 10.0 ** -rng.randint(6, 17)
+            form = [rng.choice([0.0, sc * rng.uniform(-1, 1)])] + [rng.choice([0.0, sc * rng.uniform(-2, 2)]) for _ in range(4)] + [sc * rng.choice([1.0, -1.0, rng.uniform(-3, 3)])]
+            out.append(K.kernel_case(NAME, form + [v], cls="evaluate/tiny_v_small_u", libm=True))
         for _ in range(30 if tier == "quick" else 400):
             x = rng.choice([rng.uniform(-3, 3), rng.uniform(-40, 40), -1.71, 1.72, C.fl(C.next_up(C.bits(-1.71))), C.fl(C.next_down(C.bits(1.72))), 0.0, 1e-9])
             for nm in ("taylor::exp_5_taylor", "taylor::exp_5_tail_taylor", "taylor::exp_5_tail_anal"):
